@@ -553,44 +553,15 @@ func runC04(c *Ctx) {
 				}
 			}
 			n := 0
-			for _, f := range fns {
-				k := 0
-				eachInstr(f, func(_ *ssa.BasicBlock, _ int, ins ssa.Instruction) {
-					al, ok := ins.(*ssa.Alloc)
-					if !ok || !typeIs(derefType(al.Type()), interpPath, "Response") {
-						return
-					}
-					var status int64 = -1
-					var body ssa.Value
-					for _, r := range refs(al) {
-						fa, ok := r.(*ssa.FieldAddr)
-						if !ok {
-							continue
-						}
-						_, fld, _ := fieldOf(fa)
-						for _, rr := range refs(fa) {
-							st, ok := rr.(*ssa.Store)
-							if !ok || st.Addr != ssa.Value(fa) {
-								continue
-							}
-							if fld == "StatusCode" {
-								if kv, ok := constInt(st.Val); ok {
-									status = kv
-								}
-							}
-							if fld == "Body" {
-								body = st.Val
-							}
-						}
-					}
-					if status < 400 || status >= 500 || body == nil {
-						return
-					}
-					n++
-					k++
-					c.ob("C04-R13", fnKey(f)+"#4xx-body-carries-no-evaluation-error-"+itoa(k), al.Pos(), !fromEval(body), "a 4xx response is built from an error that can come from evaluating program code (a default expression that faults): the client is told it made a mistake and is shown interpreter error text, where a fault of the program must be a 5xx with a generic body")
-				})
-			}
+			ks := map[*ssa.Function]int{}
+			eachResponseMade(fns, responseCtors(c), func(f *ssa.Function, at ssa.Instruction, status int64, body ssa.Value) {
+				if status < 400 || status >= 500 || body == nil {
+					return
+				}
+				n++
+				ks[f]++
+				c.ob("C04-R13", fnKey(f)+"#4xx-body-carries-no-evaluation-error-"+itoa(ks[f]), at.Pos(), !fromEval(body), "a 4xx response is built from an error that can come from evaluating program code (a default expression that faults): the client is told it made a mistake and is shown interpreter error text, where a fault of the program must be a 5xx with a generic body")
+			})
 			c.Sites["C04-R13#4xx-responses"] = n
 			c.Sites["C04-R13#functions-returning-evaluation-errors"] = len(evalErr)
 			c.floor("C04-R13", 3)
@@ -618,37 +589,14 @@ func runC04(c *Ctx) {
 		return false
 	}
 	// (a)
-	for _, fn := range c.srcFuncs(interpPkg) {
-		k := 0
-		eachInstr(fn, func(_ *ssa.BasicBlock, _ int, ins ssa.Instruction) {
-			al, ok := ins.(*ssa.Alloc)
-			if !ok || al.Comment != "complit" || !typeIs(al.Type(), interpPath, "Response") {
-				return
-			}
-			var status int64 = -1
-			var body ssa.Value
-			for _, r := range refs(al) {
-				if fa, ok := r.(*ssa.FieldAddr); ok {
-					_, f, _ := fieldOf(fa)
-					for _, rr := range refs(fa) {
-						if st, ok := rr.(*ssa.Store); ok && st.Addr == ssa.Value(fa) {
-							if f == "StatusCode" {
-								if n, ok := constInt(st.Val); ok {
-									status = n
-								}
-							}
-							if f == "Body" {
-								body = st.Val
-							}
-						}
-					}
-				}
-			}
+	{
+		ks := map[*ssa.Function]int{}
+		eachResponseMade(c.srcFuncs(interpPkg), responseCtors(c), func(fn *ssa.Function, at ssa.Instruction, status int64, body ssa.Value) {
 			if status < 500 || body == nil {
 				return
 			}
-			k++
-			c.ob("C04-R10", fnKey(fn)+"#response-5xx-"+itoa(k)+"-generic-body", al.Pos(), !derivesFrom(body, isErrSrc), "a 5xx interpreter.Response carries text derived from a Go error (internal detail leaks to the client)")
+			ks[fn]++
+			c.ob("C04-R10", fnKey(fn)+"#response-5xx-"+itoa(ks[fn])+"-generic-body", at.Pos(), !derivesFrom(body, isErrSrc), "a 5xx interpreter.Response carries text derived from a Go error (internal detail leaks to the client)")
 		})
 	}
 	// (b),(c)
